@@ -19,7 +19,7 @@ import struct
 from run import Broken, Violation
 from builders import c14docs as B
 
-GEN = ["Images"]
+GEN = ["Images", "PyZipUtils", "PyPptxPaths", "PyXlsxPaths", "PyDocxPaths", "PyOdfPaths", "PyEpubPaths"]
 RULE = ("documents: format x 0..4 units x 0..4 anchors per unit; anchor = embedded file referenced in a relative / parent-relative / "
         "absolute / dotted form | referenced-but-missing member | external link; files = PNG/JPEG/GIF/BMP headers of random "
         "sizes with distinct tails, some shared between anchors; resolvers: (directory, target) over a segment alphabet "
